@@ -243,78 +243,113 @@ def rule_output(program, ctx):
 def rule_can_do(program, ctx):
     rid = ctx.rule(
         "C14.can_do",
-        "Authenticator.can_do returns only its result variable; when enabled and the action is configured the result is "
-        "assigned from `self.actions[action].intersection(<token roles>)`; token roles come from "
-        "`auth_token.get('roles', default)` (an empty role set must not fall back to the default via `or`); "
-        "parse_options seeds save and query",
+        "Authenticator.can_do, on its CFG: a truthy constant (or the initial `True` of the result variable) can reach a return only along paths on "
+        "which enforcement is off (`self.is_enabled` false or `action in self.actions` false); otherwise the returned value is "
+        "bool(self.actions[action] ∩ auth_token.get('roles', <default>)) - named temporaries are read through - optionally refined by "
+        "evaluate_target under a truthy role decision; an `or` fallback for an empty role set is rejected; parse_options seeds save and query",
         floor=1,
     )
+    from ..lib import expand_aliases
+    from ..taint import ReachingDefs
+
     fn = program.func("nostr_relay.auth:Authenticator.can_do")
-    rets = [r for r in walk_no_nested(fn) if isinstance(r, ast.Return)]
-    names = {r.value.id for r in rets if isinstance(r.value, ast.Name)}
-    if len(names) != 1 or any(not isinstance(r.value, ast.Name) for r in rets):
-        bad = next((r for r in rets if not isinstance(r.value, ast.Name)), rets[0] if rets else fn)
-        ctx.bad(finding_at(P, rid, bad, "can_do has a return that does not go through the single decision variable (early allow/deny)"))
-        return
-    var = names.pop()
-    ctx.ok(rid, rets[0], f"single result variable `{var}`")
-    stores = stores_of(fn, var)
-    inter = None
-    for s in stores:
-        if not isinstance(s, ast.Assign):
-            ctx.bad(finding_at(P, rid, s, f"`{var}` bound by a non-assignment"))
-            continue
-        v = strip_await(s.value)
+    cfg = cfg_of(fn)
+    rd = ReachingDefs(cfg)
+
+    def off(expr, pol):
+        d = dotted(expr)
+        if d == "self.is_enabled":
+            return not pol
+        if isinstance(expr, ast.Compare) and len(expr.ops) == 1 and dotted(expr.left) == "action" and dotted(expr.comparators[0]) == "self.actions":
+            return (isinstance(expr.ops[0], ast.In) and not pol) or (isinstance(expr.ops[0], ast.NotIn) and pol)
+        return False
+
+    off_edges = test_edges(cfg, off)
+
+    def check_value(v, at_node, label_node, seen):
+        """v: expression returned / assigned; at_node: CFG node where it takes effect"""
+        v = strip_await(v)
         if isinstance(v, ast.Constant):
-            if v.value is True and s is stores[0]:
-                ctx.ok(rid, s, "initial value True applies only when authentication is disabled or the action is unconfigured")
-                # it must be the first statement-level binding and precede the is_enabled test
-            else:
-                ctx.bad(finding_at(P, rid, s, f"`{var}` set to the constant {v.value!r} after the initial assignment"))
-        elif any(isinstance(c, ast.Call) and call_name(c).endswith(".intersection") for c in ast.walk(v)):
-            inter = s
-            call = next(c for c in ast.walk(v) if isinstance(c, ast.Call) and call_name(c).endswith(".intersection"))
-            recv = dotted(call.func.value)
-            if "self.actions" not in recv:
-                ctx.bad(finding_at(P, rid, s, "role intersection is not taken against self.actions[action]"))
-            arg = call.args[0] if call.args else None
-            okarg = (
-                isinstance(arg, ast.Call)
-                and call_name(arg).endswith(".get")
-                and arg.args
-                and isinstance(arg.args[0], ast.Constant)
-                and arg.args[0].value == "roles"
-                and len(arg.args) == 2
-            )
-            if not okarg:
-                ctx.bad(finding_at(P, rid, s, "token roles are not read as auth_token.get('roles', <default>): an `or`/truthiness fallback gives an "
+            if bool(v.value):
+                # truthy constant: only when enforcement is off
+                path = must_pass(cfg, off_edges, [at_node])
+                if path:
+                    ctx.bad(finding_at(P, rid, label_node, "can_do can answer True although authentication is enabled and the action is configured (early allow)",
+                                       path=cfg.describe_path(path)[-5:]))
+                else:
+                    ctx.ok(rid, label_node, "True only when enforcement is off (not enabled / action not configured)")
+            return
+        if isinstance(v, ast.Name):
+            for d in rd.reaching(cfg.ast_of(at_node), v.id):
+                if (v.id, d) in seen:
+                    continue
+                seen.add((v.id, d))
+                ds = cfg.ast_of(d)
+                if isinstance(ds, ast.Assign):
+                    val = strip_await(ds.value)
+                    if isinstance(val, ast.Constant) and bool(val.value):
+                        # the True default must not survive to this return once enforcement is on
+                        others = [n for n, names in rd.defs_at.items() if v.id in names and n != d]
+                        p1 = cfg.find_path(list(cfg.succ(d, kinds={"n", "t", "f"})), [at_node], avoid_nodes=others, kinds={"n", "t", "f"}, avoid_edge_kinds=off_edges)
+                        if p1:
+                            ctx.bad(finding_at(P, rid, ds, f"`{v.id} = True` survives to a return on a path where authentication is enabled and the action is configured", path=cfg.describe_path(p1)[-5:]))
+                        else:
+                            ctx.ok(rid, ds, f"default `{v.id} = True` is overwritten whenever enforcement is on")
+                    else:
+                        check_value(ds.value, d, ds, seen)
+                elif v.id in [a.arg for a in fn.args.args]:
+                    ctx.bad(finding_at(P, rid, label_node, f"can_do returns its parameter `{v.id}`"))
+            return
+        ev = expand_aliases(fn, v)
+        inter = next((c for c in ast.walk(ev) if isinstance(c, ast.Call) and call_name(c).endswith(".intersection")), None)
+        if inter is not None:
+            recv = ast.unparse(inter.func.value)
+            arg = inter.args[0] if inter.args else None
+            okarg = isinstance(arg, ast.Call) and call_name(arg).endswith(".get") and arg.args and isinstance(arg.args[0], ast.Constant) and arg.args[0].value == "roles" and len(arg.args) == 2
+            if "self.actions[action]" not in recv:
+                ctx.bad(finding_at(P, rid, label_node, "role intersection is not taken against self.actions[action]"))
+            elif not okarg:
+                ctx.bad(finding_at(P, rid, label_node, "token roles are not read as auth_token.get('roles', <default>): an `or`/truthiness fallback gives an "
                                    "authenticated pubkey with an empty role set the anonymous role"))
             else:
-                ctx.ok(rid, s, "result = bool(self.actions[action] ∩ auth_token.get('roles', default))")
-        elif isinstance(v, ast.Call) and call_name(v).endswith(".evaluate_target"):
-            # must be conditional on the role decision
-            par = s._parent
-            if isinstance(par, ast.If) and var in {n.id for n in ast.walk(par.test) if isinstance(n, ast.Name)}:
-                ctx.ok(rid, s, "target evaluation only refines a positive role decision")
+                ctx.ok(rid, label_node, "result = bool(self.actions[action] ∩ auth_token.get('roles', default))")
+            return
+        if isinstance(ev, ast.Call) and call_name(ev).endswith(".evaluate_target"):
+            st = cfg.ast_of(at_node)
+            tgt = st.targets[0].id if isinstance(st, ast.Assign) and isinstance(st.targets[0], ast.Name) else None
+            passes = test_edges(cfg, lambda e, p: p and isinstance(e, ast.Name) and e.id == tgt)
+            if tgt and not must_pass(cfg, passes, [at_node]):
+                ctx.ok(rid, label_node, "target evaluation only refines a positive role decision")
+                # and the positive decision itself must be sound
+                for d in rd.reaching(st, tgt):
+                    if (tgt, d) not in seen and d != at_node:
+                        seen.add((tgt, d))
+                        ds = cfg.ast_of(d)
+                        if isinstance(ds, ast.Assign):
+                            val = strip_await(ds.value)
+                            if isinstance(val, ast.Constant) and bool(val.value):
+                                others = [n for n, names in rd.defs_at.items() if tgt in names and n != d]
+                                if cfg.find_path(list(cfg.succ(d, kinds={"n", "t", "f"})), [at_node], avoid_nodes=others, kinds={"n", "t", "f"}, avoid_edge_kinds=off_edges):
+                                    ctx.bad(finding_at(P, rid, ds, f"`{tgt} = True` reaches the target evaluation with enforcement on"))
+                            else:
+                                check_value(ds.value, d, ds, seen)
             else:
-                ctx.bad(finding_at(P, rid, s, "evaluate_target overrides the role decision unconditionally"))
-        else:
-            ctx.bad(finding_at(P, rid, s, f"`{var}` assigned from an unrecognised expression"))
-    if inter is None:
+                ctx.bad(finding_at(P, rid, label_node, "evaluate_target overrides the role decision unconditionally"))
+            return
+        ctx.bad(finding_at(P, rid, label_node, f"can_do's verdict comes from an unrecognised expression `{ast.unparse(v)[:50]}`"))
+
+    rets = cfg.stmt_nodes(lambda s: isinstance(s, ast.Return), kinds=("stmt",))
+    if not rets:
+        ctx.bad(finding_func(P, rid, fn, "can_do returns nothing", text="def can_do(...)"))
+    seen: set = set()
+    for r in rets:
+        st = cfg.ast_of(r)
+        if st.value is None:
+            ctx.bad(finding_at(P, rid, st, "can_do returns None"))
+            continue
+        check_value(st.value, r, st, seen)
+    if not any(isinstance(c, ast.Call) and call_name(c).endswith(".intersection") for c in ast.walk(fn)):
         ctx.bad(finding_func(P, rid, fn, "no role-set intersection decides the result", text="def can_do(...)"))
-    else:
-        # the intersection must be control-dependent only on is_enabled and `action in self.actions`
-        guards = []
-        n = inter._parent
-        while n is not fn and n is not None:
-            if isinstance(n, ast.If):
-                guards.append(ast.unparse(n.test))
-            n = n._parent
-        extra = [g for g in guards if g not in ("self.is_enabled", "action in self.actions")]
-        if extra:
-            ctx.bad(finding_at(P, rid, inter, f"role decision additionally guarded by {extra}: some tokens bypass it"))
-        else:
-            ctx.ok(rid, inter, f"role decision guarded only by {guards}")
     po = program.func("nostr_relay.auth:Authenticator.parse_options")
     seeded = set()
     for d in ast.walk(po):
